@@ -19,6 +19,7 @@ evaluates three monitors:
                      propagation is `pg.with_contextual_override`.
 """
 import collections
+import copy
 import sys
 import threading
 import time
@@ -37,7 +38,11 @@ TIERS = {
 }
 RULE = ('case = one random well-nested program of `with` blocks over the 23 scoped '
         'context managers of scopes.MANAGERS (all documented argument values, '
-        'nesting depth <= 6, different managers mixed), with `raise` statements '
+        'nesting depth <= 6, different managers mixed; dict-valued options of '
+        'view_options / mutable values of thread_local_arg_scope and coding.context, '
+        'the same option refined at several levels), `pg.view(..., **kwargs)` calls '
+        '(implicit view_options scope), the caller\'s argument objects compared '
+        'with a copy taken before the statement, with `raise` statements '
         '(two Exception classes and one BaseException) at arbitrary points, caught '
         'by `try` blocks / pg.catch_errors at arbitrary levels or escaping, and '
         'documented public uses (scopes.USES: every public method of TimeIt, '
@@ -49,7 +54,8 @@ RULE = ('case = one random well-nested program of `with` blocks over the 23 scop
         'blocks entered, nesting depth >= 2 and at least 2 different managers; '
         'distinct by the nested sequence of (manager, exit kind).')
 REQUIRED_COUNTERS = ['model_checks', 'restore_checks', 'restore_checks_exc_exit',
-                     'yielded_uses',
+                     'yielded_uses', 'argument_unchanged_checks', 'view_calls',
+                     'nested_same_dict_option',
                      'fresh_thread_checks', 'thread_model_checks',
                      'thread_checks_while_other_in_scope']
 ASSUMPTIONS = [
@@ -188,6 +194,10 @@ def gen_program(rng, spec, disabled=()):
         out.append({'k': 'raise', 'exc': kind,
                     'msg': rng.choice(['boom-1', 'boom-2', 'other'])})
         break                      # the rest of the block would be unreachable
+      elif r < 0.86 and 'view_options' in names:
+        # a render call with per-call options opens a view_options scope itself
+        out.append({'k': 'view-call',
+                    'a': S.MANAGERS['view_options'].gen(rng, spec, state)})
       elif r < 0.90 and spec.allow_spawn:
         out.append({'k': 'spawn'})
       elif r < 0.95 and spec.allow_spawn:
@@ -214,6 +224,8 @@ def show(nodes, indent=0):
       out.append(f"{pad}raise {n['exc']}({n['msg']!r})")
     elif n['k'] == 'use':
       out.append(f"{pad}use {n['u']} of y bound by {n['m']} (block level {n['level']})")
+    elif n['k'] == 'view-call':
+      out.append(f"{pad}pg.view(1, view_id=<probe view>, **{n['a']['kw']})")
     else:
       out.append(pad + n['k'])
   return out
@@ -362,6 +374,8 @@ class Exec:
         self.check_model(self.snapshot(False), 'effective-inside')
       elif k == 'use':
         self.run_use(n)
+      elif k == 'view-call':
+        self.run_view_call(n)
       elif k == 'spawn':
         self.spawn_check()
       elif k == 'propagate':
@@ -383,10 +397,53 @@ class Exec:
       self.report('unexpected-exception', f'{label}.use:{use.name}',
                   f'{use.name} of the object yielded by {mname} raised {e!r}')
 
+  def run_view_call(self, n):
+    """`pg.view(value, **kwargs)`: the per-call options are effective for the
+    call (merged into the enclosing scope's), gone after it, and the caller's
+    argument objects are left as they were."""
+    if 'view_options' in self.muted_mgrs or any(
+        k.startswith('viewopt.') for k in self.muted):
+      return
+    kw = n['a']['kw']
+    kw0 = copy.deepcopy(kw)
+    label = 'view(**kwargs)'
+    before = self.snapshot(False, False, 'view_options')
+    self.check_model(before, 'effective-inside')
+    self.counters['view_calls'] += 1
+    self.shape.append(label)
+    try:
+      got = pg.view(1, view_id=S.ProbeView.VIEW_ID, **kw).content
+    except Exception as e:  # pylint: disable=broad-except
+      if _passthrough(e):
+        raise
+      self.report('unexpected-exception', label, f'pg.view(1, **{kw0}) raised {e!r}')
+      return
+    want = repr(S.canon_yield('view_options', S.deep_merge(self.state['viewopt'], kw0)))
+    self.counters['model_checks'] += 1
+    if got != want:
+      self.report('effective-inside', label,
+                  f'pg.view(1, **{kw0}) rendered with {got}, model {want}')
+    after = self.snapshot(False, False, 'view_options')
+    self.counters['restore_checks'] += 1
+    self.counters['restore_checks_view_call'] += 1
+    diff = [(k, before[k], after[k]) for k in before
+            if k in after and before[k] != after[k] and k not in self.muted]
+    if diff:
+      self.report('restore', label, f'after pg.view(1, **{kw0}): ' + '; '.join(
+          f'{k}: before {b!r}, after {a!r}' for k, b, a in diff))
+      for k, _, _ in diff:
+        self.muted.add(k)
+    self.counters['argument_unchanged_checks'] += 1
+    if kw != kw0:
+      self.report('argument-modified', label,
+                  f'keyword arguments {kw0} of pg.view are {kw} after the call')
+      n['a']['kw'] = kw0
+
   def run_with(self, n):
     env = self.env
     m = S.MANAGERS[n['m']]
     args = n['a']
+    args0 = copy.deepcopy(args)
     label = m.label(self.state, args, env)
     heavy = n['heavy']
     fresh = m.scope == 'process' or n['m'] == 'dynamic_evaluate'
@@ -407,6 +464,11 @@ class Exec:
       with cm as y:
         entered = True
         self.state = m.push(saved, args, env)
+        if n['m'] == 'view_options' and any(
+            isinstance(v, dict) and isinstance(saved['viewopt'].get(k), dict)
+            and set(v) - set(saved['viewopt'][k]) for k, v in args['kw'].items()):
+          # the same dict-valued option refined with other keys by a nested scope
+          self.counters['nested_same_dict_option'] += 1
         self.path.append(label)
         self.ys.append((n['m'], label, y))
         if n['m'] == 'timeit':
@@ -481,6 +543,14 @@ class Exec:
       self.counters['restore_observer_comparisons'] += len(before)
       if diff:
         self.report_restore(label, exit_kind, diff, n)
+      # the caller's argument objects are as they were before the statement
+      # (also after deeper scopes were entered and left inside the block)
+      self.counters['argument_unchanged_checks'] += 1
+      if args != args0:
+        self.report('argument-modified', label,
+                    f'arguments {args0} of `with {n["m"]}(...)` are {args} after the '
+                    f'statement (left by {exit_kind})')
+        n['a'] = args0
     finally:
       self.path.pop()
     if reraise is not None:
